@@ -64,13 +64,22 @@
      cnt exc n            the number of entries of fs_exc that carry the address n
      occ outs n / indeg W n   how often n occurs among the outputs / as a precedent
    The loop is the one REPAIRED by bbbc9be of /repo: the except branch marks the cell
-   verified and pushes its precedents. *)
+   verified and pushes its precedents.
+   LAST THREE SECTIONS (Proofs/C12Once.v, C12Tol.v, C12TolWeak.v): a cell is reported
+   at most once (no hypothesis); the theorems about Model/Validate.v for EVERY
+   tolerance, with [tol_pos] and the scalar condition replaced by "each formula cell's
+   from-scratch value is close_enough to itself" (text results: any tolerance; numbers:
+   exactly the absent or positive ones, C12_refl_tolerance), also under the weak
+   non-blank condition; and which entries do not depend on the order, repetitions and
+   choice of the outputs (good W sem n: stored n = from-scratch value of n; the others
+   do depend on it: coq/Refuted/C12_order.v). *)
 From Coq Require Import List QArith.
 From PV Require Import Lib.Py Model.Graph Model.Validate.
 From PV Require Import Proofs.C01Base Proofs.C01 Proofs.C12Base Proofs.C12.
 From PV Require Import Proofs.C01Weak Proofs.C12Weak.
 From PV Require Import Model.Fail Model.ValidateFail.
 From PV Require Import Proofs.C12Chain Proofs.C12FailBase Proofs.C12Fail.
+From PV Require Import Proofs.C12Once Proofs.C12Tol Proofs.C12TolWeak.
 Import ListNotations.
 Local Open Scope nat_scope.
 
@@ -363,3 +372,220 @@ Theorem C12_bad_reported_weak_partial : forall W sem ftext tol outs,
     = Some (wb_stored W n, spec W sem (wb_inp0 W) n).
 Proof. exact bad_reported_weak. Qed.
 Print Assumptions C12_bad_reported_weak_partial.
+
+(* =============================================== a cell is reported at most once ==== *)
+(* NO hypothesis: whatever the workbook, the stored results, the formula meanings,
+   the tolerance, the outputs (order, repetitions) and the fuel, the addresses of the
+   'mismatch' report are pairwise distinct — a cell popped twice overwrites its entry
+   (contrast C12_listed_bound_f: the exception lists do repeat a cell) … *)
+Theorem C12_reported_once : forall W sem ftext tol outs,
+  NoDup (map fst (vs_report (validate W sem ftext tol outs))).
+Proof. exact reported_once. Qed.
+Print Assumptions C12_reported_once.
+
+(* … so "the report lists (n, x)" and "the report's entry for n is x" are the same … *)
+Theorem C12_reported_entry : forall W sem ftext tol outs n x,
+  In (n, x) (vs_report (validate W sem ftext tol outs)) <->
+  rep_get (vs_report (validate W sem ftext tol outs)) n = Some x.
+Proof. exact reported_entry. Qed.
+Print Assumptions C12_reported_entry.
+
+(* … and the same for the loop with cells that raise, raise_exceptions or not *)
+Theorem C12_reported_once_f : forall W fsem fpre rorder ftext tol raise_exceptions outs,
+  NoDup (map fst (fs_report (validate_f W fsem fpre rorder ftext tol raise_exceptions outs))).
+Proof. exact reported_once_f. Qed.
+Print Assumptions C12_reported_once_f.
+
+(* ===================================================== EVERY tolerance ==== *)
+(* The five theorems about Model/Validate.v with [tol_pos tol] and the scalar
+   condition REPLACED by the one consequence the loop needs: every formula cell's
+   from-scratch value is close_enough to itself under the given tolerance.  That
+   holds for every scalar when the tolerance is absent or positive
+   (C12_close_enough_refl: the theorems above are instances), for text and error
+   values under ANY tolerance — zero and negative too —, and for a number or a
+   logical under no other tolerance (C12_refl_tolerance).  The remaining side
+   conditions are those of the theorems above (sem_nonblank; formula texts). *)
+Theorem C12_refl_tolerance : forall tol v,
+  ((tol_pos tol /\ is_scalar v = true) \/ (exists s, v = VStr s) -> close_enough tol v v = true) /\
+  (forall x, as_num v = Some x -> close_enough tol v v = true -> tol_pos tol).
+Proof. exact refl_tolerance. Qed.
+Print Assumptions C12_refl_tolerance.
+
+(* PARTIAL (no formula computes its own text; sem_nonblank) *)
+Theorem C12_sound_anytol_partial : forall W sem ftext tol,
+  wf W -> sem_nonblank W sem -> stored_consistent W sem ->
+  (forall n, n < wb_n W -> is_fcell W n = true ->
+     close_enough tol (spec W sem (wb_inp0 W) n) (spec W sem (wb_inp0 W) n) = true) ->
+  (forall n vals, n < wb_n W -> is_fcell W n = true -> py_eq (sem n vals) (VStr (ftext n)) = false) ->
+  forall outs, (forall o, In o outs -> o < wb_n W) ->
+    vs_report (validate W sem ftext tol outs) = [].
+Proof. exact T.sound. Qed.
+Print Assumptions C12_sound_anytol_partial.
+
+(* PARTIAL (v' present and not the text of p's formula; no formula computes its own
+   text; sem_nonblank) *)
+Theorem C12_complete_anytol_partial : forall W sem ftext tol p v',
+  wf W -> sem_nonblank W sem -> stored_consistent W sem ->
+  p < wb_n W -> is_fcell W p = true ->
+  (forall n, n < wb_n W -> is_fcell W n = true ->
+     close_enough tol (spec W sem (wb_inp0 W) n) (spec W sem (wb_inp0 W) n) = true) ->
+  (forall n vals, n < wb_n W -> is_fcell W n = true -> py_eq (sem n vals) (VStr (ftext n)) = false) ->
+  v' <> VNone -> py_eq v' (VStr (ftext p)) = false ->
+  close_enough tol (spec W sem (wb_inp0 W) p) v' = false ->
+  forall outs, (forall o, In o outs -> o < wb_n W) ->
+    (exists o, In o outs /\ (p = o \/ anc W p o)) ->
+    let r := vs_report (validate (perturb W p v') sem ftext tol outs) in
+    rep_get r p = Some (v', spec W sem (wb_inp0 W) p) /\
+    forall n, rep_get r n <> None -> n = p \/ anc W p n.
+Proof. exact T.complete. Qed.
+Print Assumptions C12_complete_anytol_partial.
+
+(* PARTIAL (no cell's stored or computed value is its formula's text; sem_nonblank) *)
+Theorem C12_no_silent_skip_anytol_partial : forall W sem ftext tol outs,
+  wf W -> sem_nonblank W sem -> stored_full W ->
+  (forall n, n < wb_n W -> is_fcell W n = true -> py_eq (wb_stored W n) (VStr (ftext n)) = false) ->
+  (forall n vals, n < wb_n W -> is_fcell W n = true -> py_eq (sem n vals) (VStr (ftext n)) = false) ->
+  (forall n, n < wb_n W -> is_fcell W n = true ->
+     close_enough tol (spec W sem (wb_inp0 W) n) (spec W sem (wb_inp0 W) n) = true) ->
+  (forall o, In o outs -> o < wb_n W) ->
+    vs_todo (validate W sem ftext tol outs) = [] /\
+    forall o n, In o outs -> n = o \/ anc W n o ->
+      mem n (vs_verified (validate W sem ftext tol outs)) = true.
+Proof. exact T.processed_all. Qed.
+Print Assumptions C12_no_silent_skip_anytol_partial.
+
+Theorem C12_clean_not_reported_anytol_partial : forall W sem ftext tol outs,
+  wf W -> sem_nonblank W sem -> stored_full W ->
+  (forall n, n < wb_n W -> is_fcell W n = true -> py_eq (wb_stored W n) (VStr (ftext n)) = false) ->
+  (forall n vals, n < wb_n W -> is_fcell W n = true -> py_eq (sem n vals) (VStr (ftext n)) = false) ->
+  (forall n, n < wb_n W -> is_fcell W n = true ->
+     close_enough tol (spec W sem (wb_inp0 W) n) (spec W sem (wb_inp0 W) n) = true) ->
+  (forall o, In o outs -> o < wb_n W) ->
+  forall n, clean W sem n -> rep_get (vs_report (validate W sem ftext tol outs)) n = None.
+Proof. exact T.clean_not_reported. Qed.
+Print Assumptions C12_clean_not_reported_anytol_partial.
+
+Theorem C12_bad_reported_anytol_partial : forall W sem ftext tol outs,
+  wf W -> sem_nonblank W sem -> stored_full W ->
+  (forall n, n < wb_n W -> is_fcell W n = true -> py_eq (wb_stored W n) (VStr (ftext n)) = false) ->
+  (forall n vals, n < wb_n W -> is_fcell W n = true -> py_eq (sem n vals) (VStr (ftext n)) = false) ->
+  (forall n, n < wb_n W -> is_fcell W n = true ->
+     close_enough tol (spec W sem (wb_inp0 W) n) (spec W sem (wb_inp0 W) n) = true) ->
+  (forall o, In o outs -> o < wb_n W) ->
+  forall o n, In o outs -> n = o \/ anc W n o -> n < wb_n W -> is_fcell W n = true ->
+    semiclean W sem n ->
+    close_enough tol (spec W sem (wb_inp0 W) n) (wb_stored W n) = false ->
+    rep_get (vs_report (validate W sem ftext tol outs)) n
+    = Some (wb_stored W n, spec W sem (wb_inp0 W) n).
+Proof. exact T.bad_reported. Qed.
+Print Assumptions C12_bad_reported_anytol_partial.
+
+(* ------------------------- order, repetitions and choice of the checked outputs
+   PARTIAL (the cells BELOW an altered cell: their entries do depend on the order of
+   the outputs, coq/Refuted/C12_order.v — the property allows that; same side
+   conditions as above).  The entry of a formula cell n whose strict ancestors all
+   carry consistent results and whose own stored result is either its from-scratch
+   value or not close_enough to it is the SAME for any two lists of outputs from
+   which n is reachable: any order, any repetitions, any further outputs. *)
+Theorem C12_decided_entries_partial : forall W sem ftext tol,
+  wf W -> sem_nonblank W sem -> stored_full W ->
+  (forall n, n < wb_n W -> is_fcell W n = true -> py_eq (wb_stored W n) (VStr (ftext n)) = false) ->
+  (forall n vals, n < wb_n W -> is_fcell W n = true -> py_eq (sem n vals) (VStr (ftext n)) = false) ->
+  (forall n, n < wb_n W -> is_fcell W n = true ->
+     close_enough tol (spec W sem (wb_inp0 W) n) (spec W sem (wb_inp0 W) n) = true) ->
+  forall outs1 outs2,
+  (forall o, In o outs1 -> o < wb_n W) -> (forall o, In o outs2 -> o < wb_n W) ->
+  forall n, n < wb_n W -> is_fcell W n = true -> semiclean W sem n ->
+    (good W sem n \/ close_enough tol (spec W sem (wb_inp0 W) n) (wb_stored W n) = false) ->
+    (exists o, In o outs1 /\ (n = o \/ anc W n o)) ->
+    (exists o, In o outs2 /\ (n = o \/ anc W n o)) ->
+    rep_get (vs_report (validate W sem ftext tol outs1)) n
+    = rep_get (vs_report (validate W sem ftext tol outs2)) n.
+Proof. exact decided_entries. Qed.
+Print Assumptions C12_decided_entries_partial.
+
+(* ============================== every tolerance AND the weak non-blank condition ====
+   The strongest forms (Proofs/C12TolWeak.v): C12_*_partial, C12_*_weak_partial and
+   C12_*_anytol_partial above are instances.  Still PARTIAL for the formula-text side
+   conditions (and, for C12_decided_entries, the cells below an altered cell). *)
+Theorem C12_sound_anytol_weak_partial : forall W sem ftext tol,
+  wf W -> sem_nonblank_weak W sem -> stored_consistent W sem ->
+  (forall n, n < wb_n W -> is_fcell W n = true ->
+     close_enough tol (spec W sem (wb_inp0 W) n) (spec W sem (wb_inp0 W) n) = true) ->
+  (forall n vals, n < wb_n W -> is_fcell W n = true -> py_eq (sem n vals) (VStr (ftext n)) = false) ->
+  forall outs, (forall o, In o outs -> o < wb_n W) ->
+    vs_report (validate W sem ftext tol outs) = [].
+Proof. exact sound_tw. Qed.
+Print Assumptions C12_sound_anytol_weak_partial.
+
+Theorem C12_complete_anytol_weak_partial : forall W sem ftext tol p v',
+  wf W -> sem_nonblank_weak W sem -> stored_consistent W sem ->
+  p < wb_n W -> is_fcell W p = true ->
+  (forall n, n < wb_n W -> is_fcell W n = true ->
+     close_enough tol (spec W sem (wb_inp0 W) n) (spec W sem (wb_inp0 W) n) = true) ->
+  (forall n vals, n < wb_n W -> is_fcell W n = true -> py_eq (sem n vals) (VStr (ftext n)) = false) ->
+  v' <> VNone -> py_eq v' (VStr (ftext p)) = false ->
+  close_enough tol (spec W sem (wb_inp0 W) p) v' = false ->
+  forall outs, (forall o, In o outs -> o < wb_n W) ->
+    (exists o, In o outs /\ (p = o \/ anc W p o)) ->
+    let r := vs_report (validate (perturb W p v') sem ftext tol outs) in
+    rep_get r p = Some (v', spec W sem (wb_inp0 W) p) /\
+    forall n, rep_get r n <> None -> n = p \/ anc W p n.
+Proof. exact complete_tw. Qed.
+Print Assumptions C12_complete_anytol_weak_partial.
+
+Theorem C12_no_silent_skip_anytol_weak_partial : forall W sem ftext tol,
+  wf W -> sem_nonblank_weak W sem -> stored_full W ->
+  (forall n, n < wb_n W -> is_fcell W n = true -> py_eq (wb_stored W n) (VStr (ftext n)) = false) ->
+  (forall n vals, n < wb_n W -> is_fcell W n = true -> py_eq (sem n vals) (VStr (ftext n)) = false) ->
+  (forall n, n < wb_n W -> is_fcell W n = true ->
+     close_enough tol (spec W sem (wb_inp0 W) n) (spec W sem (wb_inp0 W) n) = true) ->
+  forall outs, (forall o, In o outs -> o < wb_n W) ->
+    vs_todo (validate W sem ftext tol outs) = [] /\
+    forall o n, In o outs -> n = o \/ anc W n o ->
+      mem n (vs_verified (validate W sem ftext tol outs)) = true.
+Proof. exact processed_all_tw. Qed.
+Print Assumptions C12_no_silent_skip_anytol_weak_partial.
+
+Theorem C12_clean_not_reported_anytol_weak_partial : forall W sem ftext tol,
+  wf W -> sem_nonblank_weak W sem -> stored_full W ->
+  (forall n, n < wb_n W -> is_fcell W n = true -> py_eq (wb_stored W n) (VStr (ftext n)) = false) ->
+  (forall n vals, n < wb_n W -> is_fcell W n = true -> py_eq (sem n vals) (VStr (ftext n)) = false) ->
+  (forall n, n < wb_n W -> is_fcell W n = true ->
+     close_enough tol (spec W sem (wb_inp0 W) n) (spec W sem (wb_inp0 W) n) = true) ->
+  forall outs, (forall o, In o outs -> o < wb_n W) ->
+  forall n, clean W sem n -> rep_get (vs_report (validate W sem ftext tol outs)) n = None.
+Proof. exact clean_not_reported_tw. Qed.
+Print Assumptions C12_clean_not_reported_anytol_weak_partial.
+
+Theorem C12_bad_reported_anytol_weak_partial : forall W sem ftext tol,
+  wf W -> sem_nonblank_weak W sem -> stored_full W ->
+  (forall n, n < wb_n W -> is_fcell W n = true -> py_eq (wb_stored W n) (VStr (ftext n)) = false) ->
+  (forall n vals, n < wb_n W -> is_fcell W n = true -> py_eq (sem n vals) (VStr (ftext n)) = false) ->
+  (forall n, n < wb_n W -> is_fcell W n = true ->
+     close_enough tol (spec W sem (wb_inp0 W) n) (spec W sem (wb_inp0 W) n) = true) ->
+  forall outs, (forall o, In o outs -> o < wb_n W) ->
+  forall o n, In o outs -> n = o \/ anc W n o -> n < wb_n W -> is_fcell W n = true ->
+    semiclean W sem n ->
+    close_enough tol (spec W sem (wb_inp0 W) n) (wb_stored W n) = false ->
+    rep_get (vs_report (validate W sem ftext tol outs)) n
+    = Some (wb_stored W n, spec W sem (wb_inp0 W) n).
+Proof. exact bad_reported_tw. Qed.
+Print Assumptions C12_bad_reported_anytol_weak_partial.
+
+Theorem C12_decided_entries_weak_partial : forall W sem ftext tol,
+  wf W -> sem_nonblank_weak W sem -> stored_full W ->
+  (forall n, n < wb_n W -> is_fcell W n = true -> py_eq (wb_stored W n) (VStr (ftext n)) = false) ->
+  (forall n vals, n < wb_n W -> is_fcell W n = true -> py_eq (sem n vals) (VStr (ftext n)) = false) ->
+  (forall n, n < wb_n W -> is_fcell W n = true ->
+     close_enough tol (spec W sem (wb_inp0 W) n) (spec W sem (wb_inp0 W) n) = true) ->
+  forall outs1 outs2,
+  (forall o, In o outs1 -> o < wb_n W) -> (forall o, In o outs2 -> o < wb_n W) ->
+  forall n, n < wb_n W -> is_fcell W n = true -> semiclean W sem n ->
+    (good W sem n \/ close_enough tol (spec W sem (wb_inp0 W) n) (wb_stored W n) = false) ->
+    (exists o, In o outs1 /\ (n = o \/ anc W n o)) ->
+    (exists o, In o outs2 /\ (n = o \/ anc W n o)) ->
+    rep_get (vs_report (validate W sem ftext tol outs1)) n
+    = rep_get (vs_report (validate W sem ftext tol outs2)) n.
+Proof. exact decided_entries_tw. Qed.
+Print Assumptions C12_decided_entries_weak_partial.
